@@ -10,7 +10,7 @@ import programs as corpus_programs
 
 def stores_for(ctx, mix, scale=1):
     """mix: dict generator-name -> count (quick tier); thorough multiplies by 6"""
-    k = (6 if ctx.thorough() else 1) * scale
+    k = ctx.scale(6) * scale
     rng = ctx.rng
     # the three witnesses of the non-termination findings (C06) cost a watchdog timeout per stage: only C06 runs them
     out = [(files, base, "corpus:" + name) for name, files, base in corpus_programs.PROGRAMS
